@@ -3512,6 +3512,10 @@ class DecVar(Vars):
 
     def adapt(self, to):
 
+        if self.dro_model.var_ev_list is not None:
+            raise SyntaxError('Adaptation must be defined ' +
+                              'before the model is formulated.')
+
         if isinstance(to, (Scen, Sized, int)):
             self.evtadapt(to)
         elif isinstance(to, (RandVar, RandVarSub)):
@@ -3705,7 +3709,10 @@ class DecVarSub(VarSub):
 
     def adapt(self, rvars):
 
-        self.fixed = False
+        if self.dro_model.var_ev_list is not None:
+            raise SyntaxError('Adaptation must be defined ' +
+                              'before the model is formulated.')
+
         if not isinstance(rvars, (RandVar, RandVarSub)):
             raise TypeError('Affine adaptation requires a random variable.')
 
